@@ -65,7 +65,7 @@ CHECKS = {
          "Inputs on which the language leaves the result open are skipped; only scalar-returning functions; evaluator panics in debug builds on overflow are 'stops loudly'."),
  "C11": ("4/C11",
          "explicit-state search (BFS with model-state deduplication) over operation histories executed on the real Runtime / Package / TypedFunc objects, with a drop-tracking ledger and code-liveness hooks as oracles",
-         "All sequences up to depth 8 (thorough 11) of {new runtime, compile script version 1|2, get handle, clone handle, call handle, drop handle here or on another thread, drop package, drop runtime} with at most 1 live runtime, 2 live packages and 3 live handles, deduplicated by the reference model's state; every transition is executed on fresh real objects by replaying the representative history. After every step: each call returns the value its version defines, the ledger of live tracked values (script constant, registered constant, value captured by a registered closure) equals what the model says must be alive, machine code was freed for exactly the dead modules (hook H3), nothing is dropped twice; at the end everything is released.",
+         "All sequences up to depth 8 (thorough 11) of {new runtime, compile script version 1|2, get handle, clone handle, call handle, drop handle here or on another thread, drop package, drop runtime} with at most 1 live runtime, 2 live packages and 3 live handles, deduplicated by the reference model's state; every transition is executed on fresh real objects by replaying the representative history. After every step: each call returns the value its version defines, the ledger of live tracked values (script constant, registered constant, value captured by a registered closure) equals what the model says must be alive, machine code was freed for exactly the dead modules (hook H3), nothing is dropped twice; at the end everything is released. Part B (independence of packages of different runtimes): for every pair of names out of a pool of 16 (thorough 24), a subject with two independent constants initialised by a counting host closure is compiled after every one of 17 earlier histories of the process (nothing, or an unrelated package mentioning the names in either order as functions / locals / fields / constants, dropped or kept), each history in a forked copy of the worker; the values read through a handle must equal those of the empty history.",
          "Equal model keys have equal futures (argued in the evidence); depth bound; two script versions."),
  "C12": ("4/C12",
          "stateless model checking of real threads calling real compiled code under a controlled scheduler (all interleavings up to a preemption bound at script host-call / type-registry-lock / list-lock granularity) plus exhaustive enumeration of type-level API probes decided by rustc and, where wrongly accepted, exhibited as a concrete losing schedule",
